@@ -13,6 +13,7 @@ FAMILY_DEFAULTS = {
     "flat": dict(MaxNodes=4, MaxDepth=2, DepthLimits={3}, LoopLimits={3}, VarLimits={3}, StrMode=False, InitVal=0),
     "loop": dict(MaxNodes=3, MaxDepth=3, DepthLimits={6}, LoopLimits={2}, VarLimits={3}, StrMode=False, InitVal=0),
     "scope": dict(MaxNodes=4, MaxDepth=3, DepthLimits={8}, LoopLimits={4}, VarLimits={3}, StrMode=False, InitVal=0),
+    "escw": dict(MaxNodes=4, MaxDepth=3, DepthLimits={8}, LoopLimits={4}, VarLimits={3}, StrMode=False, InitVal=0),
     "scope0": dict(MaxNodes=4, MaxDepth=3, DepthLimits={8}, LoopLimits={4}, VarLimits={3}, StrMode=False, InitVal=-1),
     "order": dict(MaxNodes=4, MaxDepth=2, DepthLimits={8}, LoopLimits={4}, VarLimits={3}, StrMode=False, InitVal=-1),
     "reuse": dict(MaxNodes=4, MaxDepth=3, DepthLimits={8}, LoopLimits={4}, VarLimits={3}, StrMode=False, InitVal=0),
@@ -22,7 +23,7 @@ FAMILY_DEFAULTS = {
     "var": dict(MaxNodes=3, MaxDepth=2, DepthLimits={6}, LoopLimits={4}, VarLimits={2, 4}, StrMode=True, InitVal=1),
 }
 
-DESIGN_INVARIANTS = ("DepthIsNesting", "ScopeBalanced", "SpecsBalanced", "CleanAtEnd", "ResultIsIdeal", "EvalOnce")
+DESIGN_INVARIANTS = ("DepthIsNesting", "ScopeBalanced", "SpecsBalanced", "CleanAtEnd", "ResultIsIdeal", "EvalOnce", "PrefixIdeal")
 DESIGN_PROPERTIES = ("PendingShrinks",)
 LIVENESS_PROPERTIES = ("Finishes",)
 
